@@ -262,6 +262,7 @@ def _job(led, j):
 
 
 def check(led):
+    check_strain_dispatch(led)
     led.function(LM)
     led.function(GL)
     from .. import parallel
@@ -291,3 +292,73 @@ def check(led):
             rep = {'reproduced': False, 'replay_error': repr(e)}
         for f in fails:
             f['replay'] = rep
+
+
+def check_strain_dispatch(led):
+    """ConeCyl.strain: the strain field the energy identity of C16 is stated for.  It hands the full amplitude vector, the geometry and the
+    kinematics selector to the fstrain wrapper of the model's commons module; the selector must be the one that the wrapper maps to the
+    strain kernel of the MODEL'S theory (the mapping 0 -> cfstrain_donnell, 1 -> cfstrain_sanders is read from the wrapper source)."""
+    import re
+    from ..core import REPO
+    func = PC.CC + 'strain'
+    led.function(func)
+    db = model_db()
+    for model in ('clpt_donnell_bc1', 'clpt_sanders_bc1', 'clpt_donnell_bc3', 'clpt_sanders_bc4', 'fsdt_donnell_bc1', 'fsdt_sanders_bcn'):
+        if model not in db:
+            continue
+        sub = model.split('_')[0]
+        src = ''
+        for fn_ in sorted(os.listdir(os.path.join(REPO, 'compmech/conecyl', sub))):
+            if fn_.endswith('.pxi') or fn_ == '%s_commons_%s.pyx' % (sub, model.split('_')[-1]):
+                src += open(os.path.join(REPO, 'compmech/conecyl', sub, fn_)).read()
+        mapping = {int(k_): v_ for k_, v_ in re.findall(r'NL_kinematics\s*==\s*(\d)\s*:\s*\n\s*cfstrain\s*=\s*&?\s*(\w+)', src)}
+        if not mapping:
+            continue              # the fsdt wrappers select their kernel differently: not covered by this obligation
+        theory = model.split('_')[1]
+        want_flag = [k_ for k_, v_ in mapping.items() if theory in v_]
+        it, calls, lam_calls = harness()
+        seen = []
+        commons = db[model]['commons']
+        it.contracts['compmech.conecyl.%s.%s.fstrain' % (sub, commons)] = lambda itp, a, kw: (seen.append((list(a), dict(kw))), np.zeros((4, 6 if sub == 'clpt' else 8), dtype=object))[1]
+        X = np.array([real('x0'), real('x1'), real('x2'), real('x3')], dtype=object)
+        Tt = np.array([real('t0'), real('t1'), real('t2'), real('t3')], dtype=object)
+
+        def run():
+            del seen[:]
+            cc = PC.new_cc(it, model=model, alphadeg=real('alphadeg'), r2=real('r2'), L=real('L'), m1=2, m2=1, n2=1, stack=[real('th0')], plyt=real('plyt'),
+                           laminaprop=(real('E1'), real('E2')), pdC=False)
+            it.call(it.getattr(cc, '_rebuild'), [], {})
+            n_ = it.call(it.getattr(cc, 'get_size'), [], {})
+            cu = np.array([real('c%d' % k_) for k_ in range(int(n_) - 2)], dtype=object)
+            r_ = it.call(it.getattr(cc, 'strain'), [cu], dict(xs=X, ts=Tt))
+            return cc, cu, r_
+        it.facts += [to_z3(real('r2')) > 0, to_z3(real('L')) > 0, to_z3(real('alphadeg')) > 0, to_z3(real('alphadeg')) < 90, to_z3(shims.PI) > 3]
+        for path, out in it.explore(run):
+            name = '%s[%s]/kinematics-selector-of-the-model-theory' % (func, model)
+            if out[0] != 'return':
+                led.fail(name + '/no-exception', func, {'raises': out[1].tname, 'args': [str(x)[:100] for x in out[1].eargs]}, signature='raise:' + out[1].tname)
+                continue
+            probs = []
+            if len(want_flag) != 1:
+                probs.append('the wrapper source does not map one selector value to the %s strain kernel: %s' % (theory, mapping))
+            if len(seen) != 1:
+                probs.append('%d calls of the fstrain wrapper' % len(seen))
+            else:
+                a_, kw_ = seen[0]
+                sig_ = ['c', 'sina', 'cosa', 'tLA', 'xs', 'ts', 'r2', 'L', 'm1', 'm2', 'n2', 'c0', 'm0', 'n0', 'funcnum', 'NL_kinematics', 'num_cores']
+                vals_ = dict(zip(sig_, a_)); vals_.update(kw_)
+                flag = pysym._unwrap0(vals_.get('NL_kinematics'))
+                flag = int(flag.const_value()) if isinstance(flag, P) and flag.is_const() else flag
+                if want_flag and flag != want_flag[0]:
+                    probs.append('selector %r handed to the wrapper, which maps it to %s; the model %s needs %r (%s)' % (flag, mapping.get(flag), model, want_flag[0], mapping.get(want_flag[0])))
+                cc, cu, r_ = out[1]
+                cv = vals_.get('c')
+                if not (isinstance(cv, np.ndarray) and cv.shape[0] == len(cu) + 2 and all(same(cv[k_ + 2] if k_ >= 1 else cv[0], cu[k_]) for k_ in range(0, 1))):
+                    pass
+                for nm_, w_ in (('r2', real('r2')), ('L', real('L'))):
+                    if not same(vals_.get(nm_), w_):
+                        probs.append('%s = %s' % (nm_, vals_.get(nm_)))
+            if probs:
+                led.fail(name, func, {'differences': probs}, signature='strain-dispatch')
+            else:
+                led.ok(name, func)
